@@ -211,7 +211,8 @@ def check_input(torch, c, stats):
                     if not resid <= 0.1 + 1e-3 + C_BOUND * n * u * kappa:
                         out.append((case, f"higher-order solver returned a result whose residual {resid:.3f} exceeds its guard 0.1"))
                 claim = kappa * u <= 1e-2 and (fname == "CONVERGED" if s.startswith("newton") else fname in ("CONVERGED", "EARLY_STOP"))
-                tol_solver = 8 * cfgobj.tolerance if s.startswith("newton") else 8 * max(cfgobj.tolerance, 0.0)
+                # |M - I|_max <= tol  =>  |X - X*|_F / |X*|_F <= (n / p) tol (entrywise -> Frobenius); factor 2 margin
+                tol_solver = max(8.0, 2.0 * n / r.numerator) * max(cfgobj.tolerance, 0.0)
                 if s.startswith("ho") and fname == "EARLY_STOP":
                     tol_solver = 0.0
             else:
